@@ -7,14 +7,17 @@
                            table_intent_*/drop calls), nothing locked, empty maps
      step fx t             the next atomic step of thread t (an atomic operation or a whole mutex
                            critical section of the code), None when t is blocked or finished;
-                           fx = false is the code as it is, fx = true the cleanup repaired as in
-                           fixes/C36-cleanup-removes-newer-entry.diff
+                           fx = true is the code as it is (try_cleanup as repaired by /repo d1af26b,
+                           = fixes/C36-cleanup-removes-newer-entry.diff: the mapping is removed only
+                           if it still points at this very entry); fx = false is try_cleanup BEFORE
+                           d1af26b (removal by key), kept for the historical theorems
      run (step fx) sched   any schedule = any list of thread ids (every interleaving, every
                            number of threads, every length)
      writers s k / readers s k   number of write / read guards on page k that exist in state s
                            (including a thread that owns the lock and is about to wrap it)
      s_bad                 ghost flag: some cleanup removed, by key, a map entry that was still
-                           referenced (the recorded finding F-C36-1); it influences no step
+                           referenced (finding F-C36-1, fixed); it influences no step and is never
+                           set when fx = true
      finished th           thread th has run to the end of its closure (everything dropped)
      waiting pc            the thread is inside the blocking read()/write() (Proof/PageLocksLive.v)
      blocked_by th thu     thu owns what th waits for, on the same entry: th is about to call
@@ -30,8 +33,25 @@ From TV Require Import Proof.PageLocksBase Proof.PageLocksStep Proof.PageLocksSh
 Import ListNotations.
 Open Scope Z_scope.
 
-(* the code as it is: mutual exclusion on every page, in every state reachable by any schedule
-   in which no cleanup has removed a live entry *)
+(* MAIN THEOREM, the code as it is: on every page at most one write guard, and a write guard
+   excludes read guards, in every state reachable by any schedule of any number of threads *)
+Theorem mutual_exclusion_all_schedules : forall progs sched,
+  mutual_exclusion (run (step true) sched (init progs)).
+Proof. exact mutual_exclusion_repaired_l. Qed.
+Check mutual_exclusion_all_schedules : forall progs sched,
+  mutual_exclusion (run (step true) sched (init progs)).
+Print Assumptions mutual_exclusion_all_schedules.
+
+(* HISTORICAL (try_cleanup before /repo d1af26b, fx = false; finding F-C36-1, fixed): removal by
+   key let a schedule of two threads with two preemptions end with two write guards on one page *)
+Theorem before_d1af26b_mutual_exclusion_refuted :
+  exists progs sched, ~ mutual_exclusion (run (step false) sched (init progs)).
+Proof. exact mutual_exclusion_refuted_l. Qed.
+Check before_d1af26b_mutual_exclusion_refuted :
+  exists progs sched, ~ mutual_exclusion (run (step false) sched (init progs)).
+Print Assumptions before_d1af26b_mutual_exclusion_refuted.
+
+(* ... and that stale removal was the only way to lose exclusion (either variant of the cleanup) *)
 Theorem mutual_exclusion_unless_stale_cleanup : forall fx progs sched,
   s_bad (sh (run (step fx) sched (init progs))) = false ->
   mutual_exclusion (run (step fx) sched (init progs)).
@@ -41,24 +61,7 @@ Check mutual_exclusion_unless_stale_cleanup : forall fx progs sched,
   mutual_exclusion (run (step fx) sched (init progs)).
 Print Assumptions mutual_exclusion_unless_stale_cleanup.
 
-(* ... and that hypothesis cannot be dropped: a schedule of two threads with two preemptions
-   ends with two write guards on the same page (finding F-C36-1) *)
-Theorem mutual_exclusion_refuted :
-  exists progs sched, ~ mutual_exclusion (run (step false) sched (init progs)).
-Proof. exact mutual_exclusion_refuted_l. Qed.
-Check mutual_exclusion_refuted :
-  exists progs sched, ~ mutual_exclusion (run (step false) sched (init progs)).
-Print Assumptions mutual_exclusion_refuted.
-
-(* with the repaired cleanup: unconditionally *)
-Theorem mutual_exclusion_repaired : forall progs sched,
-  mutual_exclusion (run (step true) sched (init progs)).
-Proof. exact mutual_exclusion_repaired_l. Qed.
-Check mutual_exclusion_repaired : forall progs sched,
-  mutual_exclusion (run (step true) sched (init progs)).
-Print Assumptions mutual_exclusion_repaired.
-
-(* the lock table returns to empty when all guards are dropped -- also for the code as it is *)
+(* the page lock table returns to empty when all guards are dropped *)
 Theorem map_empty_when_done : forall fx progs sched,
   all_done (run (step fx) sched (init progs)) -> s_map (sh (run (step fx) sched (init progs))) = [].
 Proof. exact map_empty_when_done_l. Qed.
@@ -129,34 +132,40 @@ Check table_map_empty_when_done : forall fx progs sched,
 Print Assumptions table_map_empty_when_done.
 
 (* on the comparer's own predicates (Corr/C36.v): where the implementation did what the model
-   predicts and the model's run of that schedule is outside finding class 1, the occupancy
-   counters observed after every step satisfy the oracle's exclusion clause *)
-Theorem agreeing_unflagged_case_exclusive : forall progs steps f,
-  model_agrees (Case progs steps f) = true -> known_class (Case progs steps f) = 0 ->
-  forallb (fun st => occ_ok (so_occ st)) steps = true.
-Proof. exact agreeing_unflagged_case_exclusive_l. Qed.
-Check agreeing_unflagged_case_exclusive : forall progs steps f,
-  model_agrees (Case progs steps f) = true -> known_class (Case progs steps f) = 0 ->
-  forallb (fun st => occ_ok (so_occ st)) steps = true.
-Print Assumptions agreeing_unflagged_case_exclusive.
+   predicts, the occupancy counters observed after every step satisfy the oracle's exclusion
+   clause, and when nobody is left blocked both lock tables were reported empty *)
+Theorem agreeing_case_satisfies_property : forall progs steps f,
+  model_agrees (Case progs steps f) = true ->
+  forallb (fun st => occ_ok (so_occ st)) steps = true /\
+  match f with FComplete _ _ _ [] np nt => np = 0 /\ nt = 0 | _ => True end.
+Proof. exact agreeing_case_satisfies_property_l. Qed.
+Check agreeing_case_satisfies_property : forall progs steps f,
+  model_agrees (Case progs steps f) = true ->
+  forallb (fun st => occ_ok (so_occ st)) steps = true /\
+  match f with FComplete _ _ _ [] np nt => np = 0 /\ nt = 0 | _ => True end.
+Print Assumptions agreeing_case_satisfies_property.
 
 (* non-vacuity: a state with a writer and no stale cleanup is reachable; all_done is reachable *)
 Example writer_reachable :
-  let s := run_coarse (step false) at_site 50 [0;0;0]%nat (init [wprog; wprog]) in
+  let s := run_coarse (step true) at_site 50 [0;0;0]%nat (init [wprog; wprog]) in
   s_bad (sh s) = false /\ writers s 7 = 1%nat.
 Proof. vm_compute. split; reflexivity. Qed.
 Example all_done_reachable :
-  let s := run_coarse (step false) at_site 50 (repeat 0%nat 12 ++ repeat 1%nat 12) (init [wprog; wprog]) in
+  let s := run_coarse (step true) at_site 50 (repeat 0%nat 12 ++ repeat 1%nat 12) (init [wprog; wprog]) in
   forallb (fun p => finished (snd p)) (ths s) = true /\ s_map (sh s) = [].
 Proof. vm_compute. split; reflexivity. Qed.
 (* a blocked, unfinished thread exists (hypotheses of blocked_only_by_owner are satisfiable) *)
 Example blocked_reachable :
-  let s := run_coarse (step false) at_site 50 [0;0;0;1;1]%nat (init [wprog; wprog]) in
-  step false 1 s = None /\ match lget (ths s) 1%nat with Some th => finished th = false | None => False end.
+  let s := run_coarse (step true) at_site 50 [0;0;0;1;1]%nat (init [wprog; wprog]) in
+  step true 1 s = None /\ match lget (ths s) 1%nat with Some th => finished th = false | None => False end.
 Proof. vm_compute. split; reflexivity. Qed.
 (* table intent locks are exercised: two threads take and drop intent locks on table 1 *)
 Example table_locks_reachable :
-  let s := run_coarse (step false) at_site 50 [0;1;0;1]%nat
+  let s := run_coarse (step true) at_site 50 [0;1;0;1]%nat
              (init [[OTAcq true 1; OTAcq false 1; OTRel 0]; [OTAcq false 1]]) in
   s_tacq (sh s) = 3 /\ s_tbl (sh s) = [] /\ forallb (fun p => finished (snd p)) (ths s) = true.
 Proof. vm_compute. repeat split; reflexivity. Qed.
+(* the schedule that broke the code before d1af26b keeps both acquisitions on one entry now *)
+Example old_witness_is_exclusive_now :
+  writers (run_coarse (step true) at_site 50 wsched (init [wprog; wprog])) 7 = 1%nat.
+Proof. exact repaired_same_schedule. Qed.
